@@ -13,23 +13,43 @@ import (
 	"os"
 	"strconv"
 	"strings"
+	"syscall"
 	"testing"
 	"time"
 
 	"github.com/whawty/auth/internal/verifev"
 	mc "github.com/whawty/auth/internal/verifmc"
+	"github.com/whawty/auth/internal/verifmc/vtime"
 )
 
 type mcConn struct {
-	id      int
-	in      [][]byte
-	out     []byte
-	closed  int
-	afterCl int
+	id       int
+	in       [][]byte
+	out      []byte
+	closed   int
+	afterCl  int
+	slow     bool // the client pauses for an hour (virtual time) before every fragment after the first
+	reads    int
+	rdl, wdl time.Time // deadlines set by the server (virtual clock)
+	timedOut int
 }
+
+type timeoutErr struct{}
+
+func (timeoutErr) Error() string   { return "i/o timeout" }
+func (timeoutErr) Timeout() bool   { return true }
+func (timeoutErr) Temporary() bool { return true }
 
 func (c *mcConn) Read(p []byte) (int, error) {
 	mc.Yield(fmt.Sprintf("conn%d.read", c.id))
+	c.reads++
+	if c.slow && c.reads > 1 && len(c.in) > 0 {
+		vtime.Sleep(time.Hour)
+	}
+	if !c.rdl.IsZero() && vtime.Now().After(c.rdl) {
+		c.timedOut++
+		return 0, timeoutErr{}
+	}
 	if len(c.in) == 0 {
 		return 0, errors.New("EOF")
 	}
@@ -47,6 +67,9 @@ func (c *mcConn) Write(p []byte) (int, error) {
 	if c.closed > 0 {
 		c.afterCl++
 	}
+	if !c.wdl.IsZero() && vtime.Now().After(c.wdl) {
+		return 0, timeoutErr{} // the deadline the server set itself has passed: nothing is sent
+	}
 	c.out = append(c.out, p...)
 	return len(p), nil
 }
@@ -58,20 +81,30 @@ func (c *mcConn) Close() error {
 }
 func (c *mcConn) LocalAddr() net.Addr                { return &net.UnixAddr{Name: "l", Net: "unix"} }
 func (c *mcConn) RemoteAddr() net.Addr               { return &net.UnixAddr{Name: "r", Net: "unix"} }
-func (c *mcConn) SetDeadline(t time.Time) error      { return nil }
-func (c *mcConn) SetReadDeadline(t time.Time) error  { return nil }
-func (c *mcConn) SetWriteDeadline(t time.Time) error { return nil }
+func (c *mcConn) SetDeadline(t time.Time) error      { c.rdl, c.wdl = t, t; return nil }
+func (c *mcConn) SetReadDeadline(t time.Time) error  { c.rdl = t; return nil }
+func (c *mcConn) SetWriteDeadline(t time.Time) error { c.wdl = t; return nil }
 
 type mcListener struct {
 	queue []*mcConn
+	errs  map[int]error // a transient accept failure reported once before the connection with that id
 }
 
 func (l *mcListener) Accept() (net.Conn, error) {
 	var c *mcConn
+	var err error
 	mc.Ext("listener.accept", "accept", func() bool { return len(l.queue) > 0 }, func() {
+		if e, ok := l.errs[l.queue[0].id]; ok {
+			delete(l.errs, l.queue[0].id)
+			err = e
+			return
+		}
 		c = l.queue[0]
 		l.queue = l.queue[1:]
 	})
+	if err != nil {
+		return nil, err
+	}
 	return c, nil
 }
 func (l *mcListener) Close() error   { return nil }
@@ -99,7 +132,11 @@ func TestMC(t *testing.T) {
 		n     int
 		frags int
 	}
-	scs := []scen{{"2-connections", 2, 2}, {"3-connections", 3, 1}, {"3-connections-fragmented", 3, 2}, {"3-connections-one-truncated", 3, 3}, {"2-connections-bytewise", 2, 4}}
+	scs := []scen{{"2-connections", 2, 2}, {"3-connections", 3, 1}, {"3-connections-fragmented", 3, 2}, {"3-connections-one-truncated", 3, 3}, {"2-connections-bytewise", 2, 4},
+		// time: the callback of every request takes an hour / the clients pause an hour between fragments
+		{"2-connections-slow-callback", 2, 5}, {"2-connections-slow-client", 2, 6},
+		// the accept loop sees transient failures (descriptor table full) between connections
+		{"3-connections-accept-errors", 3, 7}}
 	if ev.Thorough() {
 		scs = append(scs, scen{"4-connections", 4, 1})
 	}
@@ -167,6 +204,11 @@ func TestMC(t *testing.T) {
 					for _, b := range data {
 						c.in = append(c.in, []byte{b})
 					}
+				} else if sc.frags == 5 || sc.frags == 7 {
+					c.in = [][]byte{data}
+				} else if sc.frags == 6 {
+					c.in = [][]byte{data[:cut], data[cut:]}
+					c.slow = true
 				} else if sc.frags >= 2 {
 					c.in = [][]byte{data[:cut], data[cut:]}
 				} else {
@@ -175,8 +217,17 @@ func TestMC(t *testing.T) {
 				mw.conns = append(mw.conns, c)
 				ln.queue = append(ln.queue, c)
 			}
+			if sc.frags == 7 {
+				ln.errs = map[int]error{
+					1: &net.OpError{Op: "accept", Net: "unix", Err: os.NewSyscallError("accept4", syscall.EMFILE)},
+					2: &net.OpError{Op: "accept", Net: "unix", Err: os.NewSyscallError("accept4", syscall.ENFILE)},
+				}
+			}
 			s := &Server{ln: ln, cb: func(login, pw, svc, realm string) (bool, string, error) {
 				mc.Yield("callback." + login)
+				if sc.frags == 5 {
+					vtime.Sleep(time.Hour)
+				}
 				mw.calls[login+"/"+pw+"/"+svc+"/"+realm]++
 				i, _ := strconv.Atoi(strings.TrimSuffix(login, "user"))
 				if i%3 == 2 {
@@ -192,7 +243,7 @@ func TestMC(t *testing.T) {
 			}
 			var sb strings.Builder
 			for _, c := range mw.conns {
-				fmt.Fprintf(&sb, "c%d in=%d out=%x closed=%d;", c.id, len(c.in), c.out, c.closed)
+				fmt.Fprintf(&sb, "c%d in=%d out=%x closed=%d rd=%d to=%d dl=%v;", c.id, len(c.in), c.out, c.closed, c.reads, c.timedOut, !c.wdl.IsZero())
 			}
 			return sb.String() + fmt.Sprint(len(mw.calls))
 		},
@@ -205,6 +256,7 @@ func TestMC(t *testing.T) {
 			if out != mc.Quiescent {
 				return nil
 			}
+			slowRefused := 0
 			for _, c := range mw.conns {
 				var r Response
 				truncated := sc.frags == 3 && c.id == 1
@@ -224,18 +276,27 @@ func TestMC(t *testing.T) {
 				}
 				wantOK := c.id%2 == 0 && c.id%3 != 2
 				me := fmt.Sprintf("%duser", c.id)
+				key := fmt.Sprintf("%duser/%dpw/%dsvc/", c.id, c.id, c.id)
+				if sc.frags == 6 && c.timedOut > 0 && !r.Result && mw.calls[key] == 0 {
+					// a server that limits the time a client may take for its request may refuse the slow
+					// client - with exactly one negative reply and without calling the callback
+					if c.closed != 1 || c.afterCl != 0 {
+						v = append(v, mc.Viol{Key: "connection-close-discipline", Desc: fmt.Sprintf("connection %d closed %d times, %d writes after close", c.id, c.closed, c.afterCl)})
+					}
+					slowRefused++
+					continue
+				}
 				if r.Result != wantOK || !strings.Contains(r.Message, me) {
 					v = append(v, mc.Viol{Key: "connection-received-foreign-or-wrong-reply", Desc: fmt.Sprintf("connection %d (login %s, expected verdict %v) received verdict %v message %q", c.id, me, wantOK, r.Result, r.Message)})
 				}
 				if c.closed != 1 || c.afterCl != 0 {
 					v = append(v, mc.Viol{Key: "connection-close-discipline", Desc: fmt.Sprintf("connection %d closed %d times, %d writes after close", c.id, c.closed, c.afterCl)})
 				}
-				key := fmt.Sprintf("%duser/%dpw/%dsvc/", c.id, c.id, c.id)
 				if mw.calls[key] != 1 {
 					v = append(v, mc.Viol{Key: "callback-count", Desc: fmt.Sprintf("callback called %d times with the fields of connection %d (all calls: %v)", mw.calls[key], c.id, mw.calls)})
 				}
 			}
-			wantCalls := len(mw.conns)
+			wantCalls := len(mw.conns) - slowRefused
 			if sc.frags == 3 {
 				wantCalls--
 			}
